@@ -114,3 +114,12 @@ Definition oq_close (tol : Q) (a b : option Q) : bool :=
   end.
 Definition tres_close (tol : Q) (m : tres Q) (t e sd : option Q) : bool :=
   oq_close tol (r_t m) t && oq_close tol (r_effect m) e && oq_close tol (r_sd m) sd.
+
+(* fixed effects: field-wise comparison with a relative tolerance (the implementation adds floats) *)
+Definition c_close (tol : Q) (a b : contrast) : bool :=
+  list_eqb (qrelclose tol) (c_eff a) (c_eff b) && list_eqb (list_eqb (qrelclose tol)) (c_var a) (c_var b)
+  && qrelclose tol (c_dof a) (c_dof b).
+Definition oc_close (tol : Q) (a : option contrast) (b : option contrast) : bool :=
+  match a, b with Some x, Some y => c_close tol x y | None, None => true | _, _ => false end.
+Definition oc_eqb (a : option contrast) (b : option contrast) : bool :=
+  match a, b with Some x, Some y => c_eqb x y | None, None => true | _, _ => false end.
